@@ -82,7 +82,7 @@ def build(P):
         for ch in chunks(cs, 400):
             yield ("generator", ch)
 
-    C05 = dict(cases=c05_cases, nontrivial=lambda c, r, m: True,
+    C05 = dict(cases=c05_cases, model_is_oracle=("out", "exit", "files", "termination"), nontrivial=lambda c, r, m: True,
                rule="every ordered (target type, source type) pair over INTEGER, REAL, BOOLEAN, CHAR, STRING (length 1 and longer), DATE, two enums, two pointer types, "
                     "two record types through each channel (variable, element, field, dereferenced pointer, BYVAL, BYREF, RETURN, first assignment), target printed before and "
                     "after; INPUT of 22 lines into every type; random typed programs with an injected ill-typed store; unit = one (channel, target, source) program")
@@ -164,7 +164,7 @@ def build(P):
             if b"not reached" in r.out: return ["execution continued after an out-of-bounds write"]
         return []
 
-    C06 = dict(cases=c06_cases, oracle=c06_oracle, builds=["normal", "san"], nontrivial=lambda c, r, m: True,
+    C06 = dict(cases=c06_cases, model_is_oracle=("out", "exit", "files", "termination"), oracle=c06_oracle, builds=["normal", "san"], nontrivial=lambda c, r, m: True,
                rule="all 1-dimensional shapes with bounds in [-3,4], a sample (quick) / all 2-dimensional and a sample of 3-dimensional shapes: a distinct value written to every cell, "
                     "all read back (expected text computed by the harness), every index one step outside probed in its own program; hand-built shapes for index type / count errors "
                     "and whole-array assignment (copy, independence, pointers and BYREF aliases to elements); generator programs; normal and sanitizer builds")
@@ -245,7 +245,7 @@ def build(P):
                   "TYPE R\nDECLARE f : INTEGER\nENDTYPE\nDECLARE r : R\nOUTPUT r\nr", "PROCEDURE P\nTYPE L\nDECLARE v : INTEGER\nENDTYPE\nDECLARE x : L\nx.v <- 3\nOUTPUT x.v\nENDPROCEDURE\nCALL P\nCALL P"]
         yield ("shapes", [Case(id="C07-shape-%d" % i, prog=(s + "\n").encode()) for i, s in enumerate(shapes)])
 
-    C07 = dict(cases=c07_cases, builds=["normal", "san"], nontrivial=lambda c, r, m: b"copied" in r.out or c.id.startswith("C07-shape"),
+    C07 = dict(cases=c07_cases, model_is_oracle=("out", "exit", "files", "termination"), builds=["normal", "san"], nontrivial=lambda c, r, m: b"copied" in r.out or c.id.startswith("C07-shape"),
                rule="random record definitions with up to 3 nesting levels, scalar fields of every primitive type, array fields and arrays of records; for each, every copy channel "
                     "(assignment, BYVAL, function result, whole-array assignment / element copy, field-of-field, first assignment) followed by mutation of source and destination "
                     "and a dump of every leaf of both; non-trivial = distinct program in which the copy happened; normal and sanitizer builds")
@@ -418,7 +418,7 @@ def build(P):
         L += ["OUTPUT g1, \" \", g2, \" \", ga[1], \" \", ga[2], \" \", ga[3], \" \", gr.f, \" \", gn.inner.f, \" \", gn.arr[1], \" \", gn.arr[2], \" \", gra[1].f, \" \", gra[2].f"]
         return ("\n".join(L) + "\n").encode()
 
-    C09 = dict(cases=c09_cases, builds=["normal", "san"], nontrivial=lambda c, r, m: True,
+    C09 = dict(cases=c09_cases, model_is_oracle=("out", "exit", "files", "termination"), builds=["normal", "san"], nontrivial=lambda c, r, m: True,
                rule="hand-built alias / unset / dead-pointer shapes (callee's local after return, sibling call reusing the freed activation, parameter of a returned call, "
                     "pointer returned from a function, deeper recursion) and a pointer-centric random generator (pointers to globals, locals, BYVAL/BYREF parameters, elements, "
                     "fields, copied through assignments, parameters, results and globals, dereferenced in every later activation pattern); the normal build, the sanitizer build "
